@@ -48,6 +48,12 @@ macro_rules! program_runner {
                 });
             }
             for op in prog {
+                // With re-entrant factories ("acqr") the number of references a program holds depends on the schedule (a
+                // nested acquire happens only when the outer lookup misses). Under a schedule other than the scripted one an
+                // operation may name a reference the task does not hold: it is skipped (not applicable), never an event.
+                if matches!(op[0].as_str(), Some("cln" | "snd" | "drp")) && op[1].as_u64().unwrap() as usize >= held.len() {
+                    continue;
+                }
                 match op[0].as_str().unwrap() {
                     "acq" | "acqr" => {
                         sched::point("op:acq");
